@@ -187,6 +187,9 @@ def read_records(path):
         return [json.loads(l) for l in f if l.strip()]
 
 
+MAX_FATAL_PER_RANGE = int(os.environ.get("VERIF_MAX_FATAL", "12"))
+
+
 def _run_vh_range(mode, infile, lo, hi, budget_ms, extra, deadline, env, results):
     """Runs records lo..hi-1; attributes aborts and hangs to the record being processed and continues after it."""
     start = lo
@@ -200,6 +203,7 @@ def _run_vh_range(mode, infile, lo, hi, budget_ms, extra, deadline, env, results
             p.kill()
             raise ToolError("harness batch timeout in mode %s" % mode)
         last = start - 1
+        named = None          # record the watchdog named in this run
         for line in out.splitlines():
             if not line.startswith("{"):
                 continue
@@ -209,6 +213,8 @@ def _run_vh_range(mode, infile, lo, hi, budget_ms, extra, deadline, env, results
                 continue
             results[r["i"]] = r
             last = max(last, r["i"])
+            if r.get("fatal"):
+                named = r["i"]
         if p.returncode == 0:
             break
         if p.returncode == 2:
@@ -216,8 +222,8 @@ def _run_vh_range(mode, infile, lo, hi, budget_ms, extra, deadline, env, results
             raise ToolError("harness tool error in mode %s" % mode)
         # crash or watchdog exit: culprit is the record after the last completed one,
         # or the one the watchdog named.
-        if last in results and results[last].get("fatal"):
-            culprit = last
+        if named is not None:
+            culprit = named
         else:
             culprit = last + 1
             sig = -p.returncode if p.returncode < 0 else p.returncode
@@ -230,8 +236,13 @@ def _run_vh_range(mode, infile, lo, hi, budget_ms, extra, deadline, env, results
                                              "msg": "process %s while handling this record (%s)" % (r["fatal"], (r.get("stderr") or "").strip()[-300:])})
         start = culprit + 1
         restarts += 1
-        if restarts > 2000:
-            raise ToolError("too many harness restarts")
+        if restarts >= MAX_FATAL_PER_RANGE:
+            # the code under test keeps aborting or hanging: enough evidence, stop this range
+            # (the remaining records are marked skipped and are not counted as evaluated)
+            for i in range(start, hi):
+                results[i] = {"i": i, "ok": True, "skipped": True}
+            log("range %d..%d: %d aborts/timeouts, remaining %d records skipped" % (lo, hi, restarts, hi - start))
+            break
 
 
 def run_vh(mode, infile, budget_ms=5000, extra=None, timeout=3600, env_extra=None, jobs=None):
